@@ -7,7 +7,7 @@ for _m in (c_dimension, c_prefix, c_unit, c_quantity, c_registry, c_lemmas, c_co
 SPEC = Spec()
 
 SPEC.loops = {}
-for _m in (c_unit,):
+for _m in (c_unit, c_conversions):
     SPEC.loops.update(getattr(_m, "LOOPS", {}))
 
 SIDE_MODULES = {"lemmas": c_lemmas.SRC}
